@@ -144,6 +144,11 @@ class Family:
 
 
 W0 = {lay: G.make_world(lay) for lay in G.LAYOUT_NAMES}
+# Chaos stores node/leaf bounds as floats.  Keep the base world integral so that a problem with fractional bounds is
+# reported by the leaf/node families (where 1.5 and 2^-10 are boundary values) and not by everything that refers to a leaf.
+for _rec in W0['chaos']['visleafs'] + W0['chaos']['nodes']:
+    _rec['mins'] = [float(int(x)) for x in _rec['mins']]
+    _rec['maxes'] = [float(int(x)) for x in _rec['maxes']]
 
 
 def sub(layout: str, *names) -> dict:
@@ -899,7 +904,7 @@ def run_case(acc: core.Acc, case: dict) -> None:
         if '__error__' in d:
             fail('reread_view_raises', d, clause='reread_raises', view=name)
         else:
-            fail('value_changed', f'assigned != re-read at {d}', clause='roundtrip', view=name, diff_field=got_field)
+            fail('value_changed', f'assigned != re-read at {d}', clause='roundtrip', view=name, field=got_field)
     # lists that were assigned but are not the subject: what was assigned must still be there, in place
     for name in world:
         if name in check or name in ('texdata', 'extras') or name not in G.VIEWS:
@@ -909,7 +914,7 @@ def run_case(acc: core.Acc, case: dict) -> None:
             d = G.first_diff(a, b_[:len(a)], name)
             if d:
                 fail('referenced_list_changed', f'list assigned alongside changed: {d}', clause='roundtrip', view=name,
-                     diff_field=strip_idx(d.split(':')[0]))
+                     field=strip_idx(d.split(':')[0]))
     acc.outcome((fam.main, 'ok' if not diffs else 'diff'))
 
 
